@@ -167,7 +167,7 @@ def run(tier):
     for f in (pfc, pf64):
         for lit, bb, tt, ft in C08.string_matches(f):
             lits.add(lit)
-    rep.floor("resolver literals", len(lits), 15)
+    rep.floor("resolver literals", len(lits), 12)
     for lit in sorted(lits):
         rep.check(nq(tests, lit), "quotes-cover-literal", repr(lit),
                   "the string %r is emitted without quotes but the resolver reads the bare text back as a typed value" % lit, site=nf.span)
@@ -186,7 +186,7 @@ def run(tier):
             rep.check(covered, "quotes-cover-prefix", repr(pre),
                       "the resolver types texts starting with %r (prefix path) but need_quotes has no matching test: such strings are emitted bare and reload as numbers" % pre,
                       site=nf.span)
-    rep.floor("resolver prefix paths", npre, 3)
+    rep.floor("resolver prefix paths", npre, 2)
     # std parsers mirrored
     rparsers = set()
     for f in (pfc, pf64):
